@@ -102,19 +102,44 @@ def main():
             calls = []
             built_from = None
             hist_json = []
-            text, mol = rnd.choice(mols)
+            # one to three molecules are typed in turn inside one history: what a call returns for a molecule must not depend on which
+            # molecules were typed before it (the assignment object is cached between calls)
+            picked = [rnd.choice(mols) for _ in range(rnd.choice([1, 2, 2, 3]))]
+            texts_h, mgs = [], []
             with warnings.catch_warnings():
                 warnings.simplefilter("ignore")
-                try:
-                    mg = mol.generate(rng=Recorder(ck.seed * 31 + h))
-                except Exception:
-                    continue
-            if not mg.fully_generated:
+                for kk, (text_k, mol_k) in enumerate(picked):
+                    try:
+                        mg_k = mol_k.generate(rng=Recorder(ck.seed * 31 + h + 7919 * kk))
+                    except Exception:
+                        continue
+                    if mg_k.fully_generated:
+                        texts_h.append(text_k)
+                        mgs.append(mg_k)
+            if not mgs:
                 continue
-            baseline = None
+            # baseline of every molecule: typed by a freshly built assignment object (module state reset before and after)
+            baselines = []
+            for mg_k in mgs:
+                ffh._global_assignment_class = None
+                ffh._global_nonbonded_itp_file = None
+                ffh._global_smarts_rule_file = None
+                try:
+                    ff0, _ = mg_k.get_forcefield_types(None, None)
+                except ffh.FfAssignmentError as exc:
+                    ff0 = exc.incomplete_ff_dict
+                except Exception:
+                    ff0 = None
+                baselines.append(None if ff0 is None else {i: type_name(ffh._global_assignment_class, prm) for i, prm in ff0.items()})
+            ffh._global_assignment_class = None
+            ffh._global_nonbonded_itp_file = None
+            ffh._global_smarts_rule_file = None
+            spy.opened.clear()
             ncalls = rnd.randint(3, 8)
             ok_hist = True
             for c in range(ncalls):
+                cur = rnd.randrange(len(mgs))
+                mg, text, baseline = mgs[cur], texts_h[cur], baselines[cur]
                 sf, nf = rnd.choice(smarts_opts), rnd.choice(nb_opts)
                 if rnd.random() < 0.4:
                     sf, nf = None, None
@@ -155,9 +180,9 @@ def main():
                 assigner = ffh._global_assignment_class
                 sig = {i: type_name(assigner, prm) for i, prm in ff.items()}
                 if baseline is None:
-                    baseline = sig
+                    baselines[cur] = sig
                 elif sig != baseline:
-                    ck.fail("history-or-file-dependence", inp, f"call {c} gives {sig}, first call gave {baseline}")
+                    ck.fail("history-or-file-dependence", inp, f"call {c} (molecule {cur} of {texts_h}) gives {sig}, a freshly built assignment object gave {baseline}")
                 # renumbering
                 perm = list(range(n))
                 rnd.shuffle(perm)
@@ -229,7 +254,8 @@ def main():
             pass
         shutil.rmtree(work, ignore_errors=True)
     ck.rule = ("one case = one typing call inside a random history of 3-8 calls mixing defaults with explicit paths to copies of the bundled files, on "
-               "generated molecules of typable chemistry; every call is checked for totality, element masses, agreement with the first call, and "
+               "one to three generated molecules of typable chemistry typed in turn; every call is checked for totality, element masses, agreement with what a "
+               "freshly built assignment object gives for that molecule, and "
                "invariance under a random renumbering; distinct by (string, generated molecule, call history)")
     ck.extra["assumptions"] = ["RDKit SMARTS matching (which atoms a rule matches) is a parameter of the model: oracle only",
                                "which files the readers open is observed by binding the name `open` in gbigsmiles.forcefield_helper's module namespace"]
